@@ -656,6 +656,86 @@ def gen_opt_case(rng, seed, qry=False):
     return {"map": m, "bind": b, "ep": 1, "vals": vals, "ext": rng.random() < 0.2, "npaths": 3, "pseed": seed, "au": au}
 
 
+QUOTED_DEFAULTS = ["a b", "é", "x%41", "q?r", "h#i", "%2F", "a+b&c=d", "100%"]
+
+
+def gen_defph_case(rng, seed):
+    """A rule whose default belongs to one of its own placeholders (path or domain part): the builder resolves it
+    through to_url at compile time.  Built without the value, with the value equal to the default, and with another
+    value (served by a sibling rule without defaults when there is one)."""
+    taken = []
+    kind = rng.randrange(4)
+    dom, dsegs, hm = rng.choice(["", "", "api"]), [], False
+    if kind == 0:
+        conv = _conv("float", signed=rng.random() < 0.4)
+        d = V("int", str(rng.randint(0, 300))) if rng.random() < 0.7 else V("float", repr(rng.randint(0, 3000) / 8))
+        if conv["signed"] and rng.random() < 0.5:
+            d = V(d["ty"], "-" + txt(d["v"])) if txt(d["v"]) not in ("0", "0.0") else d
+    elif kind == 1:
+        conv = _conv("int", a=rng.choice([2, 3, 4, 6]), signed=rng.random() < 0.4)
+        n = rng.randrange(10 ** rng.randint(1, conv["a"] - 1))
+        d = V("int", str(-n if conv["signed"] and n and rng.random() < 0.5 else n))
+    elif kind == 2:
+        k = rng.choice(["string", "any", "path"])
+        if k == "any":
+            items = rng.sample(QUOTED_DEFAULTS, 3)
+            conv, d = _conv("any", items=[cps(i) for i in items]), V("str", items[0])
+        elif k == "path":
+            conv, d = _conv("path"), V("str", "/".join(rng.sample(QUOTED_DEFAULTS, 2)))
+        else:
+            conv, d = _conv("string"), V("str", rng.choice(QUOTED_DEFAULTS))
+    else:   # the default sits in the subdomain / host placeholder
+        hm = rng.random() < 0.4
+        dconv = rng.choice([_conv("int", a=rng.choice([2, 3])), _conv("string"), _conv("int")])
+        dd = V("int", str(rng.randint(1, 9))) if dconv["k"] == "int" else V("str", rng.choice(["eu", "a.b", "x-1"]))
+        dsegs = [_var("k", dconv, post=(".example.org" if hm else ""))]
+        conv, d, dom = gen_conv_g(rng, ("string", "int", "uuid")), None, ""
+    segs = [_lit(_first(rng, taken)), _var("x", conv, pre=rng.choice(["", "", "p-"]))]
+    if conv["k"] != "path" and rng.random() < 0.3:
+        segs.append(_var("y", gen_conv_g(rng, ("string", "int", "uuid", "path"))))
+    defaults = [dict(d, name=cps("x"))] if d is not None else [dict(dd, name=cps("k"))]
+    via = rng.choice(["plain", "submount", "subdomain"]) if (dom or dsegs) else rng.choice(["plain", "submount"])
+    rules = [_rule(1, segs, rng.random() < 0.4, dom=dom, dsegs=dsegs, via=via, defaults=defaults)]
+    sibling = d is not None and rng.random() < 0.5
+    if sibling:
+        sib = _rule(1, [_lit(_first(rng, taken))] + segs[1:], rng.random() < 0.4, dom=dom)
+        rules.insert(rng.randrange(2), sib)
+    mode = rng.randrange(3) if (sibling or d is None) else rng.randrange(2)     # 0 absent, 1 equal to the default, 2 another value
+    vals = []
+    if d is not None:
+        if mode == 1:
+            vals.append(dict(d, name=cps("x")))
+        elif mode == 2:
+            for _ in range(20):
+                o = gen_value_g(rng, conv)
+                try:
+                    same = o["v"] == d["v"] or (conv["k"] == "float" and float(txt(o["v"])) == float(txt(d["v"])))
+                except ValueError:
+                    same = False
+                if not same:
+                    break
+            vals.append(dict(o, name=cps("x")))
+    else:
+        vals.append(dict(gen_value_g(rng, conv), name=cps("x")))
+        if mode == 1:
+            vals.append(dict(dd, name=cps("k")))
+    for sg in segs[2:]:
+        vals.append(dict(gen_value_g(rng, sg["conv"]), name=sg["name"]))
+    rng.shuffle(vals)
+    if rng.random() < 0.2:
+        vals.append(dict(V("str", gen_text(rng, 0, 4, banned="")), name=cps("q")))
+    server = "example.org" if hm else rng.choice(["example.com", "example.com:8080"])
+    if dsegs:
+        built = (txt(dd["v"]).zfill(dsegs[0]["conv"]["a"]) if dsegs[0]["conv"]["k"] == "int" else txt(dd["v"])) + txt(dsegs[0]["post"])
+        same = rng.random() < 0.5
+        b = {"server": cps(built if same else server), "sub": []} if hm else {"server": cps(server), "sub": cps(built if same else rng.choice(["", "www"]))}
+    else:
+        b = {"server": cps(server), "sub": cps(rng.choice(["", dom]))}
+    m = {"rules": rules, "host_matching": hm, "redirect_defaults": True, "sort": 0}
+    return {"map": m, "bind": dict(b, script=cps(rng.choice(["/", "/app", "/app/"])), scheme=cps(rng.choice(["http", "https"]))),
+            "ep": 1, "vals": vals, "ext": rng.random() < 0.2, "npaths": 4, "pseed": seed, "au": True}
+
+
 def gen_growth_case(rng, seed):
     k = seed % 4
     if k == 0:
@@ -671,6 +751,8 @@ def gen_case(seed: int) -> dict:
         return gen_group_case(rng, seed)
     if rng.random() < 0.3:
         return norm_case(gen_growth_case(rng, seed))
+    if rng.random() < 0.15:
+        return norm_case(gen_defph_case(rng, seed))
     hm = rng.random() < 0.2
     server = rng.choice(["example.com", "example.com", "example.com:8080", "localhost"])
     subs = ["", "api", "www", "a.b"]
